@@ -418,7 +418,29 @@ class Run:
 
     # ------------------------------------------------------------------
     def known_findings(self):
+        # fixed defects: the stored witness must pass on the current tree
+        for k in load_known():
+            if k["property"] == self.pid and k["kind"] == "fixed" and k.get("witness") is not None \
+                    and hasattr(self.mod, "replay"):
+                w = _denan(k["witness"])
+                try:
+                    out = self.mod.replay(k["unit"], w, k.get("obligation", ""))
+                except Exception:
+                    continue
+                self.extra.setdefault("fixed_witnesses_replayed", []).append(
+                    {"id": k["id"], "passes_now": not out.get("failed")})
+                if out.get("failed"):
+                    replay_dir = HERE / "replays"
+                    replay_dir.mkdir(exist_ok=True)
+                    fn = replay_dir / f"{self.pid}-regression-{k['id']}.json"
+                    fn.write_text(json.dumps({"property": self.pid, "unit": k["unit"],
+                                              "obligation": k.get("obligation"), "model_inputs": w,
+                                              "replay": out, "note": "witness of a defect recorded as fixed fails again"},
+                                             indent=1, default=str))
+                    print(f"  fixed defect {k['id']} has returned: {out.get('detail', '')[:300]}")
+                    self.violations.append(f"VIOLATION property={self.pid} replay={fn.relative_to(HERE)}")
         for k in active_findings(self.pid):
+            k["witness"] = _denan(k.get("witness"))
             ok = None
             detail = ""
             if hasattr(self.mod, "replay") and k.get("witness") is not None:
@@ -510,6 +532,16 @@ class Run:
               f"wall {time.time() - self.t0:.1f}s")
         solve.close_pool()
         return code
+
+
+def _denan(w):
+    if isinstance(w, dict):
+        return {k: _denan(v) for k, v in w.items()}
+    if isinstance(w, list):
+        return [_denan(v) for v in w]
+    if w == "nan":
+        return float("nan")
+    return w
 
 
 def _slug(s):
